@@ -33,8 +33,44 @@ func runC13(c *Ctx) {
 	c.Reach(r1, cn, "every exit answered or handed off", ReachSpec{Stop: `^send:%d\.actionChan<-|` + dTrySendTo + `%caller, new\(wamp\.Error\)\)$`, Target: "EXIT", Want: false})
 	c.R.Floor(r1, 8)
 
-	// R2 cancel state machine
 	const r2 = "C13.R2 syncCancel state machine"
+	ruleCancelMachine(c, r2)
+	c.R.Floor(r2, 20)
+
+	const r3 = "C13.R3 timeout forwarding versus router timer"
+	ruleTimeout(c, r3)
+	c.R.Floor(r3, 12)
+}
+
+// ruleTimeout: forwarding of the call timeout versus the router-side timer.
+func ruleTimeout(c *Ctx, r3 string) {
+	sCall := dlr + "syncCall"
+	tmo := `call:wamp\.AsInt64\(phi\(%d\.invocations\[%d\.invocationByCall\[` + dCallKey + `\],ok#0\]\|new\(router\.invocation\)\)\.options\["timeout"\]\)#0`
+	positive := clause("timeout option positive", T(`^\(0 < `+tmo+`\)$`))
+	calleeTO := clause("callee supports call_timeout", T(`^call:wamp\.\(\*Session\)\.HasFeature\(.*, "callee", "call_timeout"\)$`))
+	fwd := clause("registration asked for forward_timeout", T(`^`+dReg+`\.forwardTimeout$`))
+	first := clause("first chunk", F(`^%d\.invocationByCall\[`+dCallKey+`\],ok#1$`))
+	c.Guard(r3, sCall, "timeout forwarded in INVOCATION.Details", `^mapupdate:makemap\(wamp\.Dict\)\["timeout"\]=`+tmo+`$`, 1, positive, calleeTO, fwd, first)
+	goTimer := `^go:router\.\(\*dealer\)\.syncCall\$1\(\)$`
+	c.Guard(r3, sCall, "router timer started", goTimer, 1,
+		positive,
+		clause("callee does not handle the timeout itself", F(`^call:wamp\.\(\*Session\)\.HasFeature\(.*, "callee", "call_timeout"\)$`), F(`^`+dReg+`\.forwardTimeout$`)),
+		clause("INVOCATION was sent", T(`^\(select\{send:.*<-new\(wamp\.Invocation\);default\}#0 == 0\)$`)))
+	c.Has(r3, sCall, "timer duration is the option value in milliseconds",
+		`^call:context\.WithTimeout\(call:context\.Background\(\), \(phi\(0\|`+tmo+`\) \* 1000000\)\)$`, 1)
+	c.Has(r3, sCall, "timer's cancel function stored on the invocation", `^store:phi\(.*\)\.&timerCancel=call:context\.WithTimeout\(.*\)#1$`, 1)
+	// a call with a positive timeout and a callee that does not take it over always gets the timer
+	c.Reach(r3, sCall, "router-handled timeout always arms the timer once the INVOCATION is sent", ReachSpec{
+		FromEdge: &ir.Clause{Name: "INVOCATION sent", Edges: []ir.EdgeSpec{T(`^\(select\{send:.*<-new\(wamp\.Invocation\);default\}#0 == 0\)$`)}},
+		Stop:     goTimer, Cut: []ir.Clause{clause("no router timeout", F(`^\(0 < (phi\(0\|`+tmo+`\)|`+tmo+`)\)$`))}, Target: "EXIT", Want: false})
+	t2 := sCall + "$1$1"
+	c.Has(r3, t2, "timer posts killnowait / wamp.error.timeout", `^call:router\.\(\*dealer\)\.syncCancel\(\^d, \^caller, new\(wamp\.Cancel\), "killnowait", "wamp\.error\.timeout", `, 1)
+	c.Guard(r3, sCall+"$1", "timer acts only on expiry", `^send:\^d\.actionChan<-`, 1,
+		clause("not cancelled", F(`^call:errors\.Is\(call:invoke:context\.Context\.Err\[\^timerCtx\]\(\), \*g:context\.Canceled\)$`)))
+}
+
+// ruleCancelMachine: guards and exits of dealer.syncCancel.
+func ruleCancelMachine(c *Ctx, r2 string) {
 	sc := dlr + "syncCancel"
 	inv := `%d\.invocations\[%d\.invocationByCall\[` + dCallKey + `\],ok#0\],ok#0`
 	pending := clause("call pending", T(`^%d\.calls\[`+dCallKey+`\],ok#1$`))
@@ -69,36 +105,4 @@ func runC13(c *Ctx) {
 		FromEdge: &kill, Target: dTrySendTo + `|^call:builtin:delete\(`, Want: false})
 	c.Reach(r2, sc, "skip mode sends nothing to the callee", ReachSpec{FromEdge: &ir.Clause{Name: "mode skip", Edges: []ir.EdgeSpec{T(`^\(%mode == "skip"\)$`)}}, Target: intr, Want: false})
 	c.Fields(r2, sc, "cancel ERROR", "wamp.Error", nil, map[string]string{"Type": `^48$`, "Request": `^%msg\.Request$`, "Error": `^%reason$`}, 1)
-	c.R.Floor(r2, 24)
-
-	const r3 = "C13.R3 timeout forwarding versus router timer"
-	ruleTimeout(c, r3)
-	c.R.Floor(r3, 12)
-}
-
-// ruleTimeout: forwarding of the call timeout versus the router-side timer.
-func ruleTimeout(c *Ctx, r3 string) {
-	sCall := dlr + "syncCall"
-	tmo := `call:wamp\.AsInt64\(phi\(%d\.invocations\[%d\.invocationByCall\[` + dCallKey + `\],ok#0\]\|new\(router\.invocation\)\)\.options\["timeout"\]\)#0`
-	positive := clause("timeout option positive", T(`^\(0 < `+tmo+`\)$`))
-	calleeTO := clause("callee supports call_timeout", T(`^call:wamp\.\(\*Session\)\.HasFeature\(.*, "callee", "call_timeout"\)$`))
-	fwd := clause("registration asked for forward_timeout", T(`^`+dReg+`\.forwardTimeout$`))
-	first := clause("first chunk", F(`^%d\.invocationByCall\[`+dCallKey+`\],ok#1$`))
-	c.Guard(r3, sCall, "timeout forwarded in INVOCATION.Details", `^mapupdate:makemap\(wamp\.Dict\)\["timeout"\]=`+tmo+`$`, 1, positive, calleeTO, fwd, first)
-	goTimer := `^go:router\.\(\*dealer\)\.syncCall\$1\(\)$`
-	c.Guard(r3, sCall, "router timer started", goTimer, 1,
-		positive,
-		clause("callee does not handle the timeout itself", F(`^call:wamp\.\(\*Session\)\.HasFeature\(.*, "callee", "call_timeout"\)$`), F(`^`+dReg+`\.forwardTimeout$`)),
-		clause("INVOCATION was sent", T(`^\(select\{send:.*<-new\(wamp\.Invocation\);default\}#0 == 0\)$`)))
-	c.Has(r3, sCall, "timer duration is the option value in milliseconds",
-		`^call:context\.WithTimeout\(call:context\.Background\(\), \(phi\(0\|`+tmo+`\) \* 1000000\)\)$`, 1)
-	c.Has(r3, sCall, "timer's cancel function stored on the invocation", `^store:phi\(.*\)\.&timerCancel=call:context\.WithTimeout\(.*\)#1$`, 1)
-	// a call with a positive timeout and a callee that does not take it over always gets the timer
-	c.Reach(r3, sCall, "router-handled timeout always arms the timer once the INVOCATION is sent", ReachSpec{
-		FromEdge: &ir.Clause{Name: "INVOCATION sent", Edges: []ir.EdgeSpec{T(`^\(select\{send:.*<-new\(wamp\.Invocation\);default\}#0 == 0\)$`)}},
-		Stop:     goTimer, Cut: []ir.Clause{clause("no router timeout", F(`^\(0 < (phi\(0\|`+tmo+`\)|`+tmo+`)\)$`))}, Target: "EXIT", Want: false})
-	t2 := sCall + "$1$1"
-	c.Has(r3, t2, "timer posts killnowait / wamp.error.timeout", `^call:router\.\(\*dealer\)\.syncCancel\(\^d, \^caller, new\(wamp\.Cancel\), "killnowait", "wamp\.error\.timeout", `, 1)
-	c.Guard(r3, sCall+"$1", "timer acts only on expiry", `^send:\^d\.actionChan<-`, 1,
-		clause("not cancelled", F(`^call:errors\.Is\(call:invoke:context\.Context\.Err\[\^timerCtx\]\(\), \*g:context\.Canceled\)$`)))
 }
